@@ -51,8 +51,9 @@ type Config struct {
 	AutoBucket        bool
 	HostBucket        bool
 	HostBases         []string
-	HostBasesEmpty    bool // WithHostBucketBase with an empty, non-nil list (configuration read from an empty value)
-	HostBucketOffLast bool // append WithHostBucket(false) after the bases (option order must not matter)
+	HostBasesFirst    []string // an earlier WithHostBucketBase(...) that the one for HostBases replaces
+	HostBasesEmpty    bool     // WithHostBucketBase with an empty, non-nil list (configuration read from an empty value)
+	HostBucketOffLast bool     // append WithHostBucket(false) after the bases (option order must not matter)
 	NoVersioning      bool
 	FailOnUnimplPage  bool
 	NoIntegrity       bool
@@ -234,6 +235,9 @@ func (w *World) buildFaker() {
 		gofakes3.WithAutoBucket(cfg.AutoBucket),
 		gofakes3.WithHostBucket(cfg.HostBucket),
 		gofakes3.WithIntegrityCheck(!cfg.NoIntegrity),
+	}
+	if len(cfg.HostBasesFirst) > 0 {
+		opts = append(opts, gofakes3.WithHostBucketBase(cfg.HostBasesFirst...))
 	}
 	if len(cfg.HostBases) > 0 {
 		opts = append(opts, gofakes3.WithHostBucketBase(cfg.HostBases...))
